@@ -201,6 +201,49 @@ func timeoutSeries(lat []string, pool int, bound int) *vsched.Scenario {
 	}
 }
 
+// askMethodScenario: the method-style constructors on the Ask utility instance (Ask.New,
+// Ask.NewByOptions): n concurrent askers, each must get the answer to its own payload.
+func askMethodScenario(n int, byOptions bool, bound int) *vsched.Scenario {
+	fam := "ask-method"
+	return &vsched.Scenario{
+		Name:     fmt.Sprintf("ask/method-constructors/byOptions=%v/askers%d", byOptions, n),
+		Bound:    bound,
+		TimerDev: true,
+		Body: func() {
+			vsched.PoolRetain = 0
+			actor := fpgo.ActorNewGenerics(func(self *fpgo.ActorDef[interface{}], msg interface{}) {
+				a := msg.(*fpgo.AskDef[interface{}, interface{}])
+				vsched.Yield()
+				a.Reply(answer(a.Message.(int)))
+			})
+			for i := 0; i < n; i++ {
+				p := i + 1
+				vsched.GoNamed(fmt.Sprintf("asker%d", i), func() {
+					ask := fpgo.Ask.New(p)
+					if byOptions {
+						ask = fpgo.Ask.NewByOptions(p, make(chan interface{}))
+					}
+					v := ask.AskOnce(actor)
+					vsched.Event("got", p, fmt.Sprint(v))
+				})
+			}
+		},
+		Check: func(r *vsched.Result) []vsched.Failure {
+			fs := e1.Basic("C13", fam, r, nil)
+			if len(r.Panics) > 0 {
+				return fs
+			}
+			for i := 0; i < n; i++ {
+				p := i + 1
+				if e1.Count(r, "got", p, fmt.Sprint(answer(p))) != 1 {
+					fs = append(fs, e1.Fail("C13|"+fam+"|wrong-answer", "the asker with payload %d did not get exactly its own answer %d: %v", p, answer(p), r.Events))
+				}
+			}
+			return fs
+		},
+	}
+}
+
 func scenarios(tier string) []*vsched.Scenario {
 	b := 2
 	if tier == "thorough" {
@@ -237,6 +280,7 @@ func scenarios(tier string) []*vsched.Scenario {
 			}
 		}
 	}
+	out = append(out, askMethodScenario(2, false, b), askMethodScenario(2, true, b))
 	for _, pool := range []int{0, 1, 2} {
 		for _, lat := range [][]string{{"edge", "now"}, {"now", "edge", "now"}, {"late", "now"}, {"never", "now", "now"}} {
 			out = append(out, timeoutSeries(lat, pool, b))
